@@ -10,9 +10,12 @@ def drv(name, sources, flavour="asan", **kw):
 
 
 TABLES = drv("tables", ["props/tables.cpp"])
+SPKI = drv("spki", ["props/spki.cpp"])
+IPCONV = drv("ipconv", ["props/ipconv.cpp"])
+ENUMNAMES = drv("enumnames", ["props/enumnames.cpp"])
 
 ENGINES = [
-    {"name": "rapidcheck-drivers", "path": "props/", "serves_properties": ["C01", "C02", "C09"],
+    {"name": "rapidcheck-drivers", "path": "props/", "serves_properties": ["C01", "C02", "C09", "C10", "C19", "C20"],
      "kind_free_text": "C++17 rapidcheck drivers linked against rtrlib built from the working tree (ASan+UBSan subset, asserts on); model-based / stateful"},
 ]
 
@@ -70,5 +73,62 @@ CHECKS = {
         "stages": [{"driver": TABLES,
                     "quick": {"procs": 8, "rc": (2500, 100)},
                     "thorough": {"procs": 16, "rc": (25000, 300), "timeout": 7200}}],
+    },
+    "C10": {
+        "level": "exploration",
+        "rule": "rapidcheck generates histories of add / re-add / near-duplicate add / remove / near-miss remove / remove-by-source / "
+                "get_all / search_by_ski / bulk add (1..90 keys) / bulk delete / copy_except_socket / the reload sequence "
+                "(copy aside, load new set, swap, notify_diff) over AS numbers that share tommy_inthash_u32 low bits, 4 SKIs and 3 SPKIs "
+                "differing in single bytes, 3 sources. After every operation return codes, get_all (hash side) and search_by_ski (list side) "
+                "and the callback mirror must equal a std::set model (full sweep over every AS x SKI after bulk/src/copy/swap operations and at the end). "
+                "non-trivial = history that crosses >=1 hash-table grow step and >=1 shrink step and contains a remove-by-source or a swap; "
+                "distinct by hash of the history.",
+        "assumptions": ["std::set model of (AS, SKI, SPKI, source)", "grow/shrink steps are observed through the hash table's bucket_bit field (shim)"],
+        "floor": {"quick": 100, "thorough": 1000},
+        "technique": "stateful model-based property testing (rapidcheck) against a std::set model; callback-log invariant",
+        "level_text": "Sampled exploration of operation histories with exact lookup/contents/callback oracles after every operation, "
+                      "with generators aimed at bucket collisions and resize steps.",
+        "level_note": "Trusts the std::set model. Lookups are compared as multisets of full records.",
+        "stages": [{"driver": SPKI,
+                    "quick": {"procs": 8, "rc": (1200, 100)},
+                    "thorough": {"procs": 16, "rc": (15000, 250), "timeout": 7200}}],
+    },
+    "C19": {
+        "level": "exploration",
+        "rule": "IPv4: the full 12^4 grid of octet boundary values (exhaustive) plus generated addresses; IPv6: 8 words each drawn from "
+                "{0 (x4), 1, 0xffff, random}, plus the embedded-IPv4 shapes (::a.b.c.d, ::ffff:a.b.c.d, 5-word zero prefix, ::, ::1); strings: "
+                "inet_ntop output / library output / uncompressed / x:x:x:x:x:x:d.d.d.d forms with 0..n mutations (truncate, delete, duplicate, "
+                "swap ':' and '.', upper-case, leading zero, extra group, second '::', drop colon, drop head). Oracles: to_str->str_to_addr and "
+                "to_str->inet_pton are the identity; inet_pton accepts => library accepts with the same value; the same text parsed after two "
+                "different stack/output dirtying patterns gives the same return code and address; to_str with every len 0..64 between canaries. "
+                "non-trivial = IPv4 case, IPv6 address whose longest zero run (>=2) is not at position 0 or that prints in embedded-IPv4 form, "
+                "or a string accepted by inet_pton or by the library; distinct by hash of the case.",
+        "assumptions": ["glibc inet_pton / inet_ntop are the platform parser/formatter", "over-acceptance by the library (strings inet_pton rejects) is not a violation unless the result depends on stack contents"],
+        "floor": {"quick": 5000, "thorough": 50000},
+        "exhaustive_note": "IPv4 octet-boundary grid 12^4 = 20736 addresses enumerated completely in every run",
+        "technique": "property-based testing (rapidcheck): round-trip + differential against inet_pton + metamorphic determinism check",
+        "level_text": "Exhaustive over an IPv4 boundary grid, sampled over IPv6 shapes and mutated strings, with round-trip, differential and "
+                      "determinism oracles; ASan + canaries for the buffer-length clause.",
+        "level_note": "Trusts glibc's inet_pton/inet_ntop. Determinism is tested with two stack-dirtying patterns (0x00, 0xFF), not with MSan.",
+        "stages": [{"driver": IPCONV,
+                    "quick": {"procs": 8, "rc": (20000, 100)},
+                    "thorough": {"procs": 16, "rc": (400000, 200), "timeout": 7200}}],
+    },
+    "C20": {
+        "level": "exploration",
+        "engine": "rapidcheck + fork-per-probe",
+        "rule": "enumerators of enum rtr_socket_state / enum rtr_mgr_status are parsed from the public headers of the tree under test; every "
+                "declared enumerator (exhaustive) must map to its own name; boundary values (-1, count, count+1, 255, 256, 65536, INT_MAX, INT_MIN, "
+                "UINT_MAX) and generated integers must map to NULL; every probe runs in a forked child under ASan+UBSan(bounds) so a read "
+                "outside the name table is a reported failure. Every probe is non-trivial (tiny domain); distinct by (function, value).",
+        "assumptions": ["the enums are declared with implicit or literal integer values (parsed textually from rtr.h / rtr_mgr.h)"],
+        "floor": {"quick": 30, "thorough": 30},
+        "exhaustive_note": "all declared enumerators of both enums are enumerated completely in every run",
+        "technique": "property-based testing (rapidcheck) with an exhaustive enumerator sweep; name table vs header-derived oracle",
+        "level_text": "Exhaustive over the declared enumerators, sampled over all other integers.",
+        "level_note": "Header parsing is textual (regex) — a macro-generated enum would need the parser extended.",
+        "stages": [{"driver": ENUMNAMES,
+                    "quick": {"procs": 2, "rc": (600, 100)},
+                    "thorough": {"procs": 8, "rc": (5000, 100), "timeout": 3600}}],
     },
 }
